@@ -239,30 +239,121 @@ Section More.
   Lemma pure_op_resolve_group args : pure (op_resolve_group ev args). Proof. unfold op_resolve_group. solve_pure. Qed.
   Lemma pure_op_loaded_traces args : pure (op_loaded_traces args). Proof. unfold op_loaded_traces. solve_pure. Qed.
 
-  Section Args.
-    Variable args : list val.
-    Hypothesis Hargs : Forall (fun a => pure (ev a)) args.
-    Lemma pure_ea1 : pure (eval_args ev args). Proof. apply pure_eval_args, Hargs. Qed.
-    Lemma pure_in a : In a args -> pure (ev a). Proof. intros H. rewrite Forall_forall in Hargs. apply Hargs, H. Qed.
-    (** the first operand, then a continuation that may evaluate it *)
-    Lemma pure_arg0_then {B} (k : val -> M B) : (forall a, In a args -> pure (k a)) -> pure (a <- arg0 args ;; k a).
-    Proof.
-      intros Hk. destruct args as [|a r]; [intros st x st' _ H; discriminate|].
-      intros st x st' Hok H. apply (Hk a (or_introl eq_refl) st x st' Hok H).
-    Qed.
-    Lemma pure_nth_then {B} n (k : val -> M B) e : (forall a, In a args -> pure (k a)) -> pure (a <- of_opt (nth_error args n) e ;; k a).
-    Proof.
-      intros Hk. destruct (nth_error args n) as [a|] eqn:E; [|intros st x st' _ H; discriminate].
-      intros st x st' Hok H. apply (Hk a (nth_error_In _ _ E) st x st' Hok H).
-    Qed.
-  End Args.
+  Hypothesis Hsym : forall n s, pure (ev (VSym n s)).
+  Notation allpure args := (Forall (fun a => pure (ev a)) args).
+
+  Lemma pure_in args a : allpure args -> In a args -> pure (ev a).
+  Proof. intros Hargs H. rewrite Forall_forall in Hargs. apply Hargs, H. Qed.
+  (** the first operand, then a continuation that may evaluate it *)
+  Lemma pure_arg0_then {B} args (k : val -> M B) : (forall a, In a args -> pure (k a)) -> pure (a <- arg0 args ;; k a).
+  Proof.
+    intros Hk. destruct args as [|a r]; [intros st x st' _ H; discriminate|].
+    intros st x st' Hok H. apply (Hk a (or_introl eq_refl) st x st' Hok H).
+  Qed.
+  Lemma pure_mapM_in {A B} (f : A -> M B) l : (forall x, In x l -> pure (f x)) -> pure (mapM f l).
+  Proof. intros H. apply pure_mapM. apply Forall_forall. exact H. Qed.
+  (** an error translated on the way out *)
+  Lemma pure_map_result {A} (m : M A) (g : res A -> res A) :
+    (forall a st, g (Ok a st) = Ok a st) -> (forall r a st, g r = Ok a st -> r = Ok a st) -> pure m -> pure (fun st => g (m st)).
+  Proof. intros _ Hg Hm st a st' Hok H. apply Hg in H. apply (Hm _ _ _ Hok H). Qed.
+  Lemma pure_of_int_parse p : pure (of_int_parse p). Proof. unfold of_int_parse. solve_pure. Qed.
+  Lemma pure_array_key v : pure (array_key v). Proof. unfold array_key. solve_pure. Qed.
+  Lemma pure_key_text v : pure (key_text v). Proof. unfold key_text. solve_pure. Qed.
+  Lemma pure_read_global n : pure (read_global n). Proof. unfold read_global. solve_pure. Qed.
+  Hint Resolve pure_of_int_parse pure_array_key pure_key_text pure_read_global : pureb.
+
+  Ltac inv_forall := repeat match goal with H : Forall _ (_ :: _) |- _ => apply Forall_cons_iff in H; destruct H end.
+  Ltac pstep :=
+    lazymatch goal with
+    | |- pure (bind (arg0 _) _) => apply pure_arg0_then; intros ? ?
+    | |- pure (mapM _ ?l) => first [apply pure_mapM_all; intros ?; solve [repeat pure_step] | apply pure_mapM_in; intros ? ?]
+    | |- pure (ev (VSym _ _)) => apply Hsym
+    | |- pure (ev _) => first [assumption | eapply pure_in; eassumption]
+    | |- pure (eval_args _ _) => apply pure_eval_args; assumption
+    | |- _ => pure_step
+    end.
+  Ltac psolve := inv_forall; repeat (pstep; inv_forall).
+
+  Lemma pure_eval_list1 args : allpure args -> pure (eval_list1 ev args).
+  Proof. intros Hargs. unfold eval_list1. psolve. Qed.
+  Lemma pure_eval_array a : pure (ev a) -> pure (eval_array ev a).
+  Proof. intros Ha. unfold eval_array. psolve. Qed.
+  Hint Resolve pure_eval_list1 pure_eval_array : pureb.
+  Lemma pure_op_quote args : pure (op_quote args).
+  Proof. unfold op_quote. solve_pure. Qed.
+  Lemma pure_op_get args : allpure args -> pure (ltac:(first [exact (op_get ev args) | exact (op_get args)])).
+  Proof. intros Hargs. unfold op_get. psolve.
+    intros st0 y st1 Hok H. destruct (ev (VSym s None) st0) as [x s1|e s1| |] eqn:E; try discriminate.
+    - injection H as _ <-. apply (Hsym _ _ _ _ _ Hok E).
+    - destruct e; discriminate.
+  Qed.
+  Lemma pure_op_is_defined args : allpure args -> pure (ltac:(first [exact (op_is_defined ev args) | exact (op_is_defined args)])).
+  Proof. intros Hargs. unfold op_is_defined. psolve. Qed.
+  Lemma pure_op_convert_bin args : allpure args -> pure (ltac:(first [exact (op_convert_bin ev args) | exact (op_convert_bin args)])).
+  Proof. intros Hargs. unfold op_convert_bin. psolve. Qed.
+  Lemma pure_op_string_to_int args : allpure args -> pure (ltac:(first [exact (op_string_to_int ev args) | exact (op_string_to_int args)])).
+  Proof. intros Hargs. unfold op_string_to_int. psolve. Qed.
+  Lemma pure_op_bits_to_sint args : allpure args -> pure (ltac:(first [exact (op_bits_to_sint ev args) | exact (op_bits_to_sint args)])).
+  Proof. intros Hargs. unfold op_bits_to_sint. psolve. Qed.
+  Lemma pure_op_symbol_to_string args : allpure args -> pure (ltac:(first [exact (op_symbol_to_string ev args) | exact (op_symbol_to_string args)])).
+  Proof. intros Hargs. unfold op_symbol_to_string. psolve. Qed.
+  Lemma pure_op_string_to_symbol args : allpure args -> pure (ltac:(first [exact (op_string_to_symbol ev args) | exact (op_string_to_symbol args)])).
+  Proof. intros Hargs. unfold op_string_to_symbol. psolve. Qed.
+  Lemma pure_op_int_to_string args : allpure args -> pure (ltac:(first [exact (op_int_to_string ev args) | exact (op_int_to_string args)])).
+  Proof. intros Hargs. unfold op_int_to_string. psolve. Qed.
+  Lemma pure_op_list args : allpure args -> pure (ltac:(first [exact (op_list ev args) | exact (op_list args)])).
+  Proof. intros Hargs. unfold op_list. psolve. Qed.
+  Lemma pure_op_first args : allpure args -> pure (ltac:(first [exact (op_first ev args) | exact (op_first args)])).
+  Proof. intros Hargs. unfold op_first. psolve. Qed.
+  Lemma pure_op_second args : allpure args -> pure (ltac:(first [exact (op_second ev args) | exact (op_second args)])).
+  Proof. intros Hargs. unfold op_second. psolve. Qed.
+  Lemma pure_op_last args : allpure args -> pure (ltac:(first [exact (op_last ev args) | exact (op_last args)])).
+  Proof. intros Hargs. unfold op_last. psolve. Qed.
+  Lemma pure_op_rest args : allpure args -> pure (ltac:(first [exact (op_rest ev args) | exact (op_rest args)])).
+  Proof. intros Hargs. unfold op_rest. psolve. Qed.
+  Lemma pure_op_in args : allpure args -> pure (ltac:(first [exact (op_in ev args) | exact (op_in args)])).
+  Proof. intros Hargs. unfold op_in. psolve.
+    generalize (removelast a0). intros cs. induction cs as [|c r IH]; [apply pure_ret|].
+    destruct (py_in c l) as [[|]|]; [exact IH|apply pure_ret|apply pure_unm].
+  Qed.
+  Lemma pure_op_average args : allpure args -> pure (ltac:(first [exact (op_average ev args) | exact (op_average args)])).
+  Proof. intros Hargs. unfold op_average. psolve. Qed.
+  Lemma pure_op_zip args : allpure args -> pure (ltac:(first [exact (op_zip ev args) | exact (op_zip args)])).
+  Proof. intros Hargs. unfold op_zip. psolve. Qed.
+  Lemma pure_op_length args : allpure args -> pure (ltac:(first [exact (op_length ev args) | exact (op_length args)])).
+  Proof. intros Hargs. unfold op_length. psolve. Qed.
+  Lemma pure_op_range args : allpure args -> pure (ltac:(first [exact (op_range ev args) | exact (op_range args)])).
+  Proof. intros Hargs. unfold op_range. psolve. Qed.
+  Lemma pure_op_geta args : allpure args -> pure (ltac:(first [exact (op_geta ev args) | exact (op_geta args)])).
+  Proof. intros Hargs. unfold op_geta. psolve. Qed.
+  Lemma pure_op_is_signal args : allpure args -> pure (ltac:(first [exact (op_is_signal ev args) | exact (op_is_signal args)])).
+  Proof. intros Hargs. unfold op_is_signal. psolve. Qed.
+  Lemma pure_op_signal_width args : allpure args -> pure (ltac:(first [exact (op_signal_width ev args) | exact (op_signal_width args)])).
+  Proof. intros Hargs. unfold op_signal_width. psolve. Qed.
+  Lemma pure_op_groups args : allpure args -> pure (ltac:(first [exact (op_groups ev args) | exact (op_groups args)])).
+  Proof. intros Hargs. unfold op_groups. psolve. Qed.
+  Lemma pure_op_maxmin b args : allpure args -> pure (op_maxmin ev b args).
+  Proof. intros Hargs. unfold op_maxmin. psolve. Qed.
+  Lemma pure_op_all_pred p args : allpure args -> pure (op_all_pred ev p args).
+  Proof. intros Hargs. unfold op_all_pred. psolve. Qed.
 End More.
 
 (** * the fragment with @ *)
-Definition roa_op (o : op) : bool := ro_op o || match o with OReval => true | _ => false end.
+(** operators added to the fragment of ReadOnly.v: relative evaluation, references through scope, group and name,
+    list access, predicates, conversions, array reads; quote leaves its operand unevaluated *)
+Definition roa_more (o : op) : bool :=
+  match o with
+  | OReval | OGet | OResolveScope | OResolveGroup | OLoadedTraces | OGroups | ODefinedP | OSignalP | OSignalWidth
+  | OAtomP | OSymbolP | OStringP | OIntP | OListP
+  | OConvertBin | OStringToInt | OBitsToSint | OStringToSymbol | OSymbolToString | OIntToString
+  | OList | OFirst | OSecond | OLast | ORest | OIn | OMax | OMin | OAverage | OZip | OLength | ORange | OGeta => true
+  | _ => false
+  end.
+Definition roa_op (o : op) : bool := ro_op o || roa_more o.
 Fixpoint is_roa (e : val) : bool :=
   match e with
   | VInt _ | VBool _ | VStr _ | VFloat _ | VSym _ _ => true
+  | VList _ [VOp OQuote; _] => true
   | VList _ (VOp o :: args) => roa_op o && forallb is_roa args
   | _ => false
   end.
@@ -274,15 +365,26 @@ Proof.
   destruct e as [| | | | | | |w l| | | | |]; try discriminate; try apply pure_ret.
   - apply pure_eval_symbol.
   - destruct l as [|h args]; [discriminate|]. destruct h as [| | | | | |o| | | | | |]; try discriminate.
-    cbn [is_roa] in Hro. apply andb_prop in Hro as [Ho Ha].
+    cbn [eval_body].
+    assert (Hq : o = OQuote \/ roa_op o && forallb is_roa args = true).
+    { cbn [is_roa] in Hro. destruct o; auto. }
+    destruct Hq as [->|Hq]; [unfold dispatch; apply pure_op_quote|]. clear Hro.
+    apply andb_prop in Hq as [Ho Ha].
     assert (HF : Forall (fun a => pure (eval lf f a)) args).
     { apply Forall_forall. intros a Hin. apply IH. rewrite forallb_forall in Ha. apply Ha, Hin. }
-    cbn [eval_body]. destruct o; try discriminate; unfold dispatch;
+    assert (Hs : forall n s, pure (eval lf f (VSym n s))) by (intros n s; apply IH; reflexivity).
+    destruct o; try discriminate; unfold dispatch;
       first [ apply pure_op_not | apply pure_op_eq | apply pure_op_cmp | apply pure_op_and | apply pure_op_or
             | apply pure_op_if | apply pure_op_do | apply pure_op_add | apply pure_op_sub | apply pure_op_mul
             | apply pure_op_div | apply pure_op_exp | apply pure_op_mod | apply pure_op_bitwise | apply pure_op_slice
-            | apply pure_op_reval ];
-      exact HF.
+            | apply pure_op_reval | apply pure_op_resolve_scope | apply pure_op_resolve_group | apply pure_op_loaded_traces
+            | apply pure_op_get | apply pure_op_groups | apply pure_op_is_defined | apply pure_op_is_signal
+            | apply pure_op_signal_width | apply pure_op_all_pred | apply pure_op_convert_bin | apply pure_op_string_to_int
+            | apply pure_op_bits_to_sint | apply pure_op_string_to_symbol | apply pure_op_symbol_to_string
+            | apply pure_op_int_to_string | apply pure_op_list | apply pure_op_first | apply pure_op_second
+            | apply pure_op_last | apply pure_op_rest | apply pure_op_in | apply pure_op_maxmin | apply pure_op_average
+            | apply pure_op_zip | apply pure_op_length | apply pure_op_range | apply pure_op_geta ];
+      first [exact HF | exact Hs | idtac].
 Qed.
 
 (** (find c) for conditions of the fragment with @: only "c can be evaluated at every index" remains a premise *)
